@@ -51,7 +51,11 @@ pub fn run(ctx: &Ctx, rep: &mut Report) {
         }
         let mut rng = ctx.rng(&format!("c17-st-{GROUP}"), id as u64);
         for &cap in &[1usize, 2, 4, 8, 16] {
-            let prm = params(4, cap, 1 + (count + cap) % 6);
+          for &bits in &[4usize, 1, 64, 2] {
+            if bits != 4 && cap > 4 {
+                continue;
+            }
+            let prm = params(bits, cap, 1 + (count + cap) % 6);
             let mut pcs = vec![count, count + 1, 0];
             if count > 0 {
                 pcs.push(count - 1);
@@ -66,7 +70,7 @@ pub fn run(ctx: &Ctx, rep: &mut Report) {
                     let want = count.is_power_of_two() && pc == count && count <= cap && !(seeded && count > 1);
                     rep.count("statement_constructions", 1);
                     rep.distinct_extra += 1;
-                    let d = json!({"constructor": "RangeStatement::init", "commitments": count, "capacity": cap, "promises": pc, "seed": seeded, "group": GROUP});
+                    let d = json!({"constructor": "RangeStatement::init", "bits": bits, "commitments": count, "capacity": cap, "promises": pc, "seed": seeded, "group": GROUP});
                     let r = no_panic(|| RangeStatement::init(prm.clone(), commitments.clone(), promises.clone(), seed));
                     match r {
                         Err(p) => viol(rep, ctx, id, "C17 statement-panic", format!("RangeStatement::init panicked: {p}"), d),
@@ -76,8 +80,8 @@ pub fn run(ctx: &Ctx, rep: &mut Report) {
                                     rep,
                                     ctx,
                                     id,
-                                    &format!("C17 statement-domain ok={} seed={seeded} count{}1", r.is_ok(), if count > 1 { ">" } else { "<=" }),
-                                    format!("RangeStatement::init({count} commitments, capacity {cap}, {pc} promises, seed {seeded}) returned {}, the documented domain says {}", if r.is_ok() { "Ok" } else { "Err" }, if want { "Ok" } else { "Err" }),
+                                    &format!("C17 statement-domain ok={} seed={seeded} count{}1 bits{}", r.is_ok(), if count > 1 { ">" } else { "<=" }, if bits == 1 { "=1" } else { ">1" }),
+                                    format!("RangeStatement::init(bits {bits}, {count} commitments, capacity {cap}, {pc} promises, seed {seeded}) returned {}, the documented domain says {}", if r.is_ok() { "Ok" } else { "Err" }, if want { "Ok" } else { "Err" }),
                                     d.clone(),
                                 );
                             }
@@ -91,6 +95,7 @@ pub fn run(ctx: &Ctx, rep: &mut Report) {
                     }
                 }
             }
+          }
         }
         rep.eval(&(GROUP, "statement", count));
     }
